@@ -57,8 +57,16 @@ def scan_trusted(text, label):
     return res
 
 
+def evidence_dir(ctx):
+    """/verif/evidence is only written by runs against /repo itself; runs against a scratch copy (--repo) write under
+    .work so that committed evidence always describes the real tree"""
+    d = os.path.join(ctx.here, "evidence") if os.path.abspath(ctx.repo) == "/repo" else os.path.join(ctx.here, ".work", "evidence-scratch")
+    os.makedirs(d, exist_ok=True)
+    return d
+
+
 def write_replay(ctx, obligation, payload):
-    d = os.path.join(ctx.here, "evidence", "replay")
+    d = os.path.join(evidence_dir(ctx), "replay")
     os.makedirs(d, exist_ok=True)
     name = "%s-%s.json" % (ctx.pid, re.sub(r"[^A-Za-z0-9_.-]+", "_", obligation))
     p = os.path.join(d, name)
@@ -82,8 +90,10 @@ def run_witness(ctx, finding):
 def conclude(ctx, prop, results, wall):
     pid = ctx.pid
     undecided = [r for r in results if r["status"] == "undecided"]
-    obligations = sum(r["obligations"] for r in results)
-    discharged = sum(r["discharged"] for r in results)
+    # obligations are counted per property: an obligation tagged for other properties only is not this check's business
+    rel = [o for r in results for o in r.get("obl_list", []) if o.get("props") is None or pid in o["props"]]
+    obligations = len(rel)
+    discharged = len([o for o in rel if o["ok"]])
     failures = []
     for r in results:
         for f in r["failures"]:
@@ -159,8 +169,7 @@ def conclude(ctx, prop, results, wall):
         "wall_s": round(wall, 2),
         "violations": len(violations),
     }
-    os.makedirs(os.path.join(ctx.here, "evidence"), exist_ok=True)
-    json.dump(ev, open(os.path.join(ctx.here, "evidence", pid + ".json"), "w"), indent=1)
+    json.dump(ev, open(os.path.join(evidence_dir(ctx), pid + ".json"), "w"), indent=1)
     for l in lines:
         print(l)
     for f, rp, inp in violations:
